@@ -476,6 +476,28 @@ Proof.
   repeat split; [vm_compute; tauto | vm_compute; discriminate].
 Qed.
 
+
+(* ------------------------------------------------------------ the look-behind drop *)
+(* With the drop on (production setting) a reader that is asked for block 0, block 1 and block 0
+   again answers Done the third time, although block 0 exists: a caller that reads a stored file
+   twice from the start (FixedStructReader does) sees an empty file the second time.
+   Known finding fixedstruct_streamed_multi_block.  With the drop off every answer is the block. *)
+Theorem lookbehind_drop_refuted_thm :
+  exists (plain : list N) (bs : N) (reqs : list N),
+    let n := len plain in
+    let fresh := mk_rstate 0 (plain, []) [] in
+    (forall i, In i reqs -> in_range n bs i = true)
+    /\ read_blocks_m sched_state (fill_block sched_state sched_read (Some GZ_BUF_SZ)) true bs n fresh reqs
+       <> map (fun i => AOk (blk bs plain i)) reqs
+    /\ read_blocks_m sched_state (fill_block sched_state sched_read (Some GZ_BUF_SZ)) false bs n fresh reqs
+       = map (fun i => AOk (blk bs plain i)) reqs.
+Proof.
+  exists [1; 2; 3; 4; 5], 2, [0; 1; 0]. cbv zeta. split; [|split].
+  - intros i [<-|[<-|[<-|[]]]]; reflexivity.
+  - vm_compute. discriminate.
+  - vm_compute. reflexivity.
+Qed.
+
 (* ------------------------------------------------------------ satisfiable hypotheses *)
 Example assemble_example_gz :
   let plain := [10; 11; 12; 13; 14; 15; 16] in
